@@ -63,6 +63,14 @@ class Ev:
             name = n.get("callee", "").split("::")[-1]
             if name in self.calls:
                 return self.calls[name]
+        if k in ("CXXMemberCallExpr", "CallExpr") and call_args(n) and n.get("calleeId") and getattr(self, "depth", 0) < 3:
+            g_ = getattr(self.F, "_by_id", {}).get(n["calleeId"]) or getattr(self.F, "by_id", {}).get(n["calleeId"])
+            if g_ is not None and g_.body is not None and len(g_.params) == len(call_args(n)):
+                self.depth = getattr(self, "depth", 0) + 1
+                try:
+                    return self.run(g_, [self.expr(x, env) for x in call_args(n)])
+                finally:
+                    self.depth -= 1
         if k == "CallExpr" and n.get("callee", "").endswith("::min"):
             a = [self.expr(x, env) for x in call_args(n)]
             return min(a)
@@ -137,7 +145,7 @@ def run(rep, ctx):
           r"mp::BasicSolver::(objno_specified|is_objno_specified|multiobj|objno_used|GetObjNo|SetObjNo|notify_obj_added|notify_start_opts|notify_end_opts)",
           r"mp::SolutionAdapter::.*", r"mp::WriteSolFile", r"mp::SolutionWriterImpl::Handle.*Solution",
           r"mp::ProblemFlattener::ConvertStandardItems"]
-    jobs = [dict(unit=U, fn=fn, repo=repo, closure=1, closure_roots=r"SolverNLHandlerImpl::OnHeader$"),
+    jobs = [dict(unit=U, fn=fn, repo=repo, closure=1, closure_roots=r"(SolverNLHandlerImpl::OnHeader|NLProblemBuilder::(OnHeader|NeedObj|resulting_nobj|resulting_obj_index))$"),
             dict(unit="src/solver.cc", fn=fn, repo=repo),
             dict(unit="solvers/visitor/visitor-modelapi-connect.cc",
                  fn=[r"mp::ProblemFlattener::ConvertStandardItems"], repo=repo)]
@@ -291,10 +299,14 @@ def run(rep, ctx):
     p1.check(bool(ah) and bool(rdno) and all(not oh.cfg.before(r_, ah[0]) for r_ in rdno), "options-before-objno",
              short_loc(oh.loc), "after_header_() (option parsing) precedes the read of objno")
     nob = one(NPB + "::OnHeader")
-    add = [x for x in nob.walk() if x["k"] == "CXXMemberCallExpr" and x.get("callee", "").endswith("::AddObjs")]
-    okn = len(add) == 1 and "n_objs" in render(call_args(add[0])[0])
-    vd = [v for v in nob.walk() if v["k"] == "VarDecl" and v.get("name") == "n_objs"]
-    okn = okn and bool(vd) and "resulting_nobj(h.num_objs)" in render(vd[0])
+    addr = list(reach_calls(F, nob, lambda x: x["k"] == "CXXMemberCallExpr" and x.get("callee", "").endswith("::AddObjs"), depth=1))
+    add = [c_ for a_, c_, r_, o_ in addr]
+    okn = len(addr) == 1
+    if okn:
+        a_, c_, r_, o_ = addr[0]
+        # the count handed to AddObjs, traced through a naming local and a helper parameter back to OnHeader's terms
+        cnt_ = render(r_(expand_locals(o_, call_args(c_)[0], 0, True))).replace(" ", "").replace("this->", "")
+        okn = cnt_ == "resulting_nobj(h.num_objs)"
     p1.check(okn, "builder-sized-with-resulting_nobj", short_loc(nob.loc),
              "the builder adds resulting_nobj(h.num_objs) objectives")
 
